@@ -320,7 +320,8 @@ fn cmd_check(prop: &str, tier: &str) -> i32 {
         let mut e1 = Executor::new(&bins);
         let mut e2 = Executor::new(&bins);
         let scen = directed::scenarios(prop, tier, base_seed);
-        for (name, cfg, start_ms, steps) in scen {
+        for sc in scen {
+            let (name, cfg, start_ms, steps, sc_samples) = (sc.name, sc.cfg, sc.start_ms, sc.steps, sc.samples);
             directed_count += 1;
             let nonce = format!("#{:016x}", rng::derive(base_seed, &name, 7));
             match e1.run(&cfg, start_ms, &nonce, &steps) {
@@ -332,7 +333,7 @@ fn cmd_check(prop: &str, tier: &str) -> i32 {
                         exec: &mut e2,
                         nonce: format!("{}a", nonce),
                         harness_error: None,
-                        samples: b.aux_samples,
+                        samples: if b.aux_samples > 0 { sc_samples.max(b.aux_samples) } else { 0 },
                         pick: rng::derive(base_seed, &name, 8),
                     };
                     let vs = oracle::judge(prop, &h, &mut aux, &mut total);
